@@ -22,6 +22,8 @@ oracle_c06 — line protocol (all numbers decimal, signed 64-bit unless said oth
                                  caller at a time with ms_i; then one call at msLast         → `ids=<id,…> last=<id>` | `err`
   `nstress <cur> <g> <k>` / `hstress <node> <ms> <g> <k>`  multi-goroutine stress on a fresh generator with varying
                                  timestamps / clock; monitors only                           → `ok` | `err`
+  `gidpar <cur> <g> <k>` / `hreal <node> <g> <k>`  concurrent callers of GenID / of HardNode.Generate on the REAL clock
+                                 (fresh generator, default clock); monitors only               → `ok` | `err`
   `monocheck <node> <id>*`       is the trace one of a fresh MonoNode(node) for some
                                  non-decreasing clock?                                        → `accepted` | `rejected@<i>` | `err`
 The accessor configuration is the one regenerated from the source (`Nv.Gen.C06.cfg`).
@@ -208,6 +210,17 @@ def step (s : OState) (line : String) : OState × String :=
         let l := hardGen c s.nb s.nal r.1 ⟨msLast.toInt, 0⟩
         (s, s!"ids={",".intercalate (r.2.reverse.map showId)} last={showId l.2}")
     | _, _, _, _ => (s, "bad-op")
+  | ["gidpar", cur, g, k] =>
+    -- g goroutines × k calls of GenID (real clock) on a fresh UnixNanoID: judged by the monitors only
+    match parseI64 cur, parseCount g 64, parseCount k 100000 with
+    | some _, some _, some _ => (s, "ok")
+    | _, _, _ => (s, "bad-op")
+  | ["hreal", node, g, k] =>
+    -- g goroutines × k calls of Generate on a fresh NewNode(node, 0) under the package's default clock
+    match parseI64 node, parseCount g 64, parseCount k 100000 with
+    | some node, some _, some _ =>
+      if BitVec.slt node 0#64 || BitVec.slt ((1#64 <<< s.nb.toNat) - 1#64) node then (s, "err") else (s, "ok")
+    | _, _, _ => (s, "bad-op")
   | ["nstress", cur, g, k] =>
     -- g goroutines × k calls with per-goroutine timestamp sequences on a fresh generator: judged by the monitors only
     match parseI64 cur, parseCount g 64, parseCount k 10000 with
